@@ -300,3 +300,10 @@ func failNoShrink(doc replayDoc, v *drv.Violation) {
 
 // verifRoot is the framework directory (bin/check exports VERIF_ROOT; default /verif).
 func verifRoot() string { return getenv("VERIF_ROOT", "/verif") }
+
+// inconclusive ends the process with a status bin/check maps to exit 2: the harness cannot decide
+// (its instrumentation does not match the code under test); never a violation.
+func inconclusive(msg string) {
+	fmt.Printf("INCONCLUSIVE-HARNESS: %s\n", msg)
+	os.Exit(5)
+}
